@@ -40,9 +40,11 @@ Lemma gen_column : dry_column = 1.
 Proof. reflexivity. Qed.
 Lemma gen_is_other : forall same ds de bs be, dry_is_other same ds de bs be = negb same || negb (ds =? bs).
 Proof. reflexivity. Qed.
-(* the overlap test of the violation filter AS FOUND: it uses the later violation's count (count1);
-   the reference uses count2.  This is the q_overlap_asym finding, see Props/C03Known.v *)
-Lemma gen_viol_overlap_as_found : forall l1 l2 c1 c2, dry_viol_overlap l1 l2 c1 c2 = (l1 <? l2 + c1).
+(* the overlap test of the violation filter, pinned where both violations have the same line count: there the
+   test as found (it adds the LATER violation's count, the q_overlap_asym finding of Props/C03Known.v) and the
+   documented one (the kept, earlier block's extent) coincide, so this fact survives a repair of the defect
+   and still breaks when the comparison is altered *)
+Lemma gen_viol_overlap_diag : forall l1 l2 c, dry_viol_overlap l1 l2 c c = (l1 <? l2 + c).
 Proof. reflexivity. Qed.
 Lemma gen_extract_literals : dry_count_open = "(" /\ dry_count_open_off = 1 /\ dry_count_close = " lines".
 Proof. repeat split; reflexivity. Qed.
@@ -263,7 +265,7 @@ Proof.
   rewrite (raw_viols_ext _ _ k (ref_rows W files) (model_bagree q)).
   apply dedup_viols_ext. intros v1 v2 H1 H2. unfold v_ovl. cbn [p_viol_overlap model_bparams ref_bparams].
   destruct (q_overlap_asym q); [|reflexivity]. specialize (Hd eq_refl).
-  rewrite gen_viol_overlap_as_found, (raw_count_dense W k _ v1 Hd H1), (raw_count_dense W k _ v2 Hd H2). reflexivity.
+  rewrite (raw_count_dense W k _ v1 Hd H1), (raw_count_dense W k _ v2 Hd H2). apply gen_viol_overlap_diag.
 Qed.
 
 Lemma lines_ok_off q files : q_strip_in_code q = false -> q_block_comment_kept q = false -> lines_ok q files.
